@@ -137,6 +137,14 @@ macro_rules! entry2d_case {
                 let r = catch_unwind(AssertUnwindSafe(|| interp.interp_array_into(&e, &f, buf.view_mut())));
                 ck(checks, format!("C14:{tag}:reject[empty-xs-nonempty-ys]"), !matches!(r, Ok(Ok(()))), String::new());
             }
+            // dynamic-rank queries: ys with an extra length-1 axis is a shape mismatch as well
+            {
+                let mut s3 = qshape.to_vec(); s3.push(1);
+                if let Ok(qy3) = sym_array("qy", &s3, y0 + 0.01, yn - 0.01).into_dimensionality::<$Dq>() {
+                    let r = catch_unwind(AssertUnwindSafe(|| interp.interp_array(&qx, &qy3)));
+                    ck(checks, format!("C14:{tag}:reject[ys-extra-unit-axis]"), !matches!(r, Ok(Ok(_))), String::new());
+                }
+            }
             // xs / ys of different shapes never produce Ok (C14)
             if qx.ndim() > 0 {
                 let mut s2 = qshape.to_vec(); s2[0] += 1;
@@ -196,6 +204,7 @@ entry2d_case!(e2_d2_q1, Ix2, Ix1, Ix1);
 entry2d_case!(e2_d3_q1, Ix3, Ix1, Ix2);
 entry2d_case!(e2_d4_q1, Ix4, Ix1, Ix3);
 entry2d_case!(e2_d2_q0, Ix2, Ix0, Ix0);
+entry2d_case!(e2_d3_q0, Ix3, Ix0, Ix1);
 entry2d_case!(e2_d2_q2, Ix2, Ix2, Ix2);
 entry2d_case!(e2_d3_q2, Ix3, Ix2, Ix3);
 entry2d_case!(e2_d4_q2, Ix4, Ix2, Ix4);
@@ -227,6 +236,7 @@ pub fn entry2d(args: &[String], checks: &mut Vec<Check>) {
         (false, 3, false, 1) => run_strats2!(e2_d3_q1, tag, &ds, &qs, strat, checks),
         (false, 4, false, 1) => run_strats2!(e2_d4_q1, tag, &ds, &qs, strat, checks),
         (false, 2, false, 0) => run_strats2!(e2_d2_q0, tag, &ds, &qs, strat, checks),
+        (false, 3, false, 0) => run_strats2!(e2_d3_q0, tag, &ds, &qs, strat, checks),
         (false, 2, false, 2) => run_strats2!(e2_d2_q2, tag, &ds, &qs, strat, checks),
         (false, 3, false, 2) => run_strats2!(e2_d3_q2, tag, &ds, &qs, strat, checks),
         (false, 4, false, 2) => run_strats2!(e2_d4_q2, tag, &ds, &qs, strat, checks),
@@ -352,6 +362,7 @@ macro_rules! fast_all_dims {
     ($checks:expr, $E:ty) => {
         fast1d!($checks, $E, Ix1, vec![3], "Ix1");
         fast1d!($checks, $E, Ix2, vec![3, 2], "Ix2");
+        fast1d!($checks, $E, Ix2, vec![9, 3], "Ix2-9x3");
         fast1d!($checks, $E, Ix3, vec![3, 2, 2], "Ix3");
         fast1d!($checks, $E, Ix4, vec![3, 2, 1, 2], "Ix4");
         fast1d!($checks, $E, Ix5, vec![3, 2, 1, 2, 1], "Ix5");
@@ -421,6 +432,26 @@ pub fn builder_table(_args: &[String], checks: &mut Vec<Check>) {
                         Ok(Err(e)) => ck(checks, name, !valid && violated.contains(&kind(&e)), format!("Err({}) violated={violated:?}", kind(&e))),
                     }
                 }
+            }
+        }
+    }
+    // ---- long axes: a defect at any position (first pair, middle, last pair) must be found
+    for len in [9usize, 17, 40] {
+        let inc: Vec<f64> = (0..len).map(|i| (i as f64) * 0.75 - 3.0).collect();
+        let mut cases: Vec<(String, Vec<f64>, bool)> = vec![("increasing".into(), inc.clone(), true)];
+        for k in 0..len - 1 {
+            let mut t = inc.clone(); t[k + 1] = t[k]; cases.push((format!("tie@{k}"), t, false));
+            let mut s2 = inc.clone(); s2.swap(k, k + 1); cases.push((format!("swap@{k}"), s2, false));
+        }
+        for k in 0..len { let mut t = inc.clone(); t[k] = f64::NAN; cases.push((format!("nan@{k}"), t, false)); }
+        for (pname, xs, rising) in cases {
+            let data = Array1::from((0..len).map(|i| (i % 5) as f64).collect::<Vec<_>>());
+            let r = catch_unwind(AssertUnwindSafe(|| Interp1DBuilder::new(data.clone()).x(Array1::from(xs.clone())).strategy(CubicSpline::new()).build().map(|_| ())));
+            let name = format!("C10:table1d[long axis,len={len},{pname}]");
+            match r {
+                Err(_) => ck(checks, name, false, "panic".into()),
+                Ok(Ok(())) => ck(checks, name, rising, "accepted".into()),
+                Ok(Err(e)) => ck(checks, name, !rising && kind(&e) == "Monotonic", format!("Err({})", kind(&e))),
             }
         }
     }
@@ -507,7 +538,7 @@ pub fn builder_table(_args: &[String], checks: &mut Vec<Check>) {
             Ok(Err(e)) => ck(checks, name, !ok && kind(&e) == "ShapeError", format!("Err({})", kind(&e))),
         }
     }
-    for (nm, bshape, ok) in [("dyn-ok", vec![1usize, 3], true), ("dyn-wrong-rank-1", vec![3], false), ("dyn-wrong-rank-3", vec![1, 3, 1], false), ("dyn-wrong-leading", vec![4, 3], false)] {
+    for (nm, bshape, ok) in [("dyn-ok", vec![1usize, 3], true), ("dyn-wrong-rank-0", vec![], false), ("dyn-wrong-rank-1", vec![3], false), ("dyn-wrong-rank-1b", vec![1], false), ("dyn-wrong-rank-3", vec![1, 3, 1], false), ("dyn-wrong-leading", vec![4, 3], false)] {
         let b: ArrayD<RowBoundary<f64>> = ArrayD::from_elem(IxDyn(&bshape), RowBoundary::Clamped);
         let r = catch_unwind(AssertUnwindSafe(|| Interp1DBuilder::new(data2.clone().into_dyn()).x(x.clone()).strategy(CubicSpline::new().boundary(BoundaryCondition::Individual(b.clone()))).build().map(|_| ())));
         let name = format!("C10:boundary-shape[{nm}]");
@@ -522,7 +553,7 @@ pub fn builder_table(_args: &[String], checks: &mut Vec<Check>) {
             let xs = Array1::from((0..n).map(|i| i as f64 * 1.25).collect::<Vec<_>>());
             let mut d = Array2::<f64>::from_shape_fn((n, 3), |(i, j)| ((i * 5 + j * 3) % 7) as f64);
             for j in 0..3 { let v = d[[0, j]]; d[[n - 1, j]] = v; }
-            if let Some(l) = lane_bad { d[[n - 1, l]] += 0.5; }
+            if let Some(l) = lane_bad { d[[n - 1, l]] += if n % 2 == 0 { 0.5 } else { 0.0 }; if n % 2 == 1 { let v = d[[n - 1, l]]; d[[n - 1, l]] = f64::from_bits(v.to_bits() + 1); } }
             let r = catch_unwind(AssertUnwindSafe(|| Interp1DBuilder::new(d.clone()).x(xs.clone()).strategy(CubicSpline::new().boundary(BoundaryCondition::Periodic)).build().map(|_| ())));
             let name = format!("C10:periodic-ends[n={n},unequal-lane={lane_bad:?}]");
             match r {
@@ -570,6 +601,20 @@ pub fn builder_table(_args: &[String], checks: &mut Vec<Check>) {
         FAIL_BUILD.with(|f| f.set(false));
         ck(checks, format!("C18:build-error-passthrough[min={}]", $MIN), matches!(&r, Err(BuilderError::ValueError(m)) if m == "injected-build-error"), String::new());
     }}; }
+    // default index axis (no `.x(..)`): the builder may only be invoked when there are at least two points
+    macro_rules! rec_default_axis { ($MIN:expr) => {{
+        for len in 0..4usize {
+            reset();
+            BUILD_LOG.with(|l| l.borrow_mut().clear());
+            let data: Array1<Sym> = Array1::from((0..len).map(|i| var(&format!("d{i}"), i as f64)).collect::<Vec<_>>());
+            let r = catch_unwind(AssertUnwindSafe(|| Interp1DBuilder::new(data).strategy(Rec::<$MIN>).build().map(|_| ())));
+            let log = BUILD_LOG.with(|l| l.borrow().clone());
+            let valid = len >= $MIN && len >= 2;
+            ck(checks, format!("C18:builder-invoked-only-when-valid[default axis,min={},len={len}]", $MIN), matches!(r, Ok(_)) && (!log.is_empty()) == valid && log.iter().all(|l| l.contains("guarantees_hold=true")), format!("log={log:?}"));
+        }
+    }}; }
+    rec_default_axis!(0);
+    rec_default_axis!(2);
     rec_table!(0);
     rec_table!(2);
     rec_table!(4);
@@ -590,6 +635,8 @@ pub fn lane_alone(args: &[String], checks: &mut Vec<Check>) {
     let specs: Vec<&str> = match str_arg(args, "bcset", "varied") {
         "mixed" => vec!["Mixed:FirstDeriv:SecondDeriv", "Mixed:FirstDeriv:SecondDeriv", "Mixed:NotAKnot:FirstDeriv", "Mixed:SecondDeriv:Natural", "Mixed:Clamped:NotAKnot", "Mixed:FirstDeriv:FirstDeriv"],
         "samekind" => vec!["Clamped", "Clamped", "Natural", "Natural"],
+        // constant along the LAST trailing axis, varying along the others (filled below per lane)
+        "rows" => vec!["Natural", "Mixed:NotAKnot:FirstDeriv", "Mixed:SecondDeriv:Clamped", "NotAKnot"],
         _ => vec!["Natural", "Mixed:NotAKnot:FirstDeriv", "Mixed:SecondDeriv:Clamped", "NotAKnot", "Mixed:FirstDeriv:SecondDeriv", "Clamped"],
     };
     let tag = format!("[{strat},n={n},lanes={},bc={}]", str_arg(args, "lanes", ""), str_arg(args, "bcset", "varied"));
@@ -623,11 +670,18 @@ pub fn lane_alone(args: &[String], checks: &mut Vec<Check>) {
         }
         "spline" => {
             let mut bshape = dshape.clone(); bshape[0] = 1;
-            let rows: Vec<RowBoundary<Sym>> = (0..lanes).map(|l| row_boundary(specs[l % specs.len()], l)).collect();
-            let b = ArrayD::from_shape_vec(IxDyn(&bshape), rows).unwrap();
+            let last = *tshape.last().unwrap_or(&1);
+            let spec_of = |l: usize| -> &str { if str_arg(args, "bcset", "varied") == "rows" { specs[(l / last.max(1)) % specs.len()] } else { specs[l % specs.len()] } };
+            let rows: Vec<RowBoundary<Sym>> = (0..lanes).map(|l| row_boundary(spec_of(l), l)).collect();
+            let mut b = ArrayD::from_shape_vec(IxDyn(&bshape), rows).unwrap();
+            if str_arg(args, "blayout", "c") == "f" {
+                let mut f = ArrayD::from_elem(IxDyn(&bshape).f(), RowBoundary::NotAKnot);
+                f.assign(&b);
+                b = f;
+            }
             let multi = Interp1DBuilder::new(data.clone()).x(x.clone()).strategy(CubicSpline::new().boundary(BoundaryCondition::Individual(b)).extrapolate(true)).build().unwrap();
             let (ok, d) = compare!(multi, |l: usize| {
-                let b1 = Array1::from(vec![row_boundary(specs[l % specs.len()], l)]);
+                let b1 = Array1::from(vec![row_boundary(spec_of(l), l)]);
                 Interp1DBuilder::new(col(l)).x(x.clone()).strategy(CubicSpline::new().boundary(BoundaryCondition::Individual(b1)).extrapolate(true)).build().unwrap()
             });
             ck(checks, format!("C08:lane-alone{tag}"), ok, d);
